@@ -1080,6 +1080,8 @@ static int write_text(void *context, UChar *text, int32_t length, int fold, int 
 
         if (prefix) {
             prefix_chars = sizeof(prefix_text) - 1;
+            /* the prefix takes its share of every line */
+            target_length -= prefix_chars;
         } else {
             prefix_text[0] = '\0';
             prefix_chars = 0;
